@@ -536,8 +536,15 @@ pub fn create_logical(l: &Logical, comp: Comp, packaging: Packaging, dir: &Path,
 /// Same, with the extra content packs written into `extra_dir` (any directory, not necessarily
 /// the one of the entry-point file).
 pub fn create_logical_ext(l: &Logical, comp: Comp, packaging: Packaging, dir: &Path, stem: &str, extra_dir: &Path) -> Result<CreatedLogical, String> {
+    create_logical_named(l, comp, packaging, dir, &format!("{stem}.jbk"), stem, extra_dir)
+}
+
+/// Same, with the file name of the entry point given in full (any extension, or none).
+pub fn create_logical_named(l: &Logical, comp: Comp, packaging: Packaging, dir: &Path, file_name: &str, stem: &str, extra_dir: &Path) -> Result<CreatedLogical, String> {
     let r = crate::catch(|| -> Result<CreatedLogical, String> {
-        let path = dir.join(format!("{stem}.jbk"));
+        let path = dir.join(file_name);
+        let base_name = Path::new(file_name).file_name().and_then(|n| n.to_str()).unwrap_or("");
+        let first = base_name.split('.').next().unwrap_or("");
         let p = camino::Utf8PathBuf::from_path_buf(path.clone()).unwrap();
         let cm = match packaging {
             Packaging::OneFile => jbk::creator::ConcatMode::OneFile,
@@ -570,17 +577,20 @@ pub fn create_logical_ext(l: &Logical, comp: Comp, packaging: Packaging, dir: &P
         creator
             .finalize(Box::new(SpecEntries(l.dir.clone())), extras)
             .map_err(|e| format!("finalize: {e}"))?;
-        match packaging {
-            Packaging::TwoFiles => files.push(path.with_extension("jbkc")),
-            Packaging::NoConcat => {
-                files.push(path.with_extension("jbkc"));
-                // BasicCreator names the directory file with set_extension(".jbkd")
-                let mut d = p.clone();
-                d.set_extension(".jbkd");
-                files.push(d.into_std_path_buf());
-            }
-            _ => {}
+        // the pack files BasicCreator wrote next to the entry point, whatever it named them (today
+        // "<stem>.jbkc" and "<stem>..jbkd"): the content pack first, then the others by name
+        if !matches!(packaging, Packaging::OneFile) {
+            let mut found: Vec<PathBuf> = std::fs::read_dir(path.parent().unwrap_or(dir))
+                .map_err(|e| format!("listing: {e}"))?
+                .filter_map(|e| e.ok().map(|e| e.path()))
+                .filter(|f| f.is_file() && !files.contains(f) && f.file_name().and_then(|n| n.to_str()).map_or(false, |n| n.starts_with(first)))
+                .filter(|f| f.extension().and_then(|e| e.to_str()).map_or(false, |e| e.starts_with("jbk")))
+                .collect();
+            found.sort_by_key(|f| (f.extension().map_or(true, |e| e != "jbkc"), f.clone()));
+            files.extend(found);
         }
+        let mut seen = std::collections::BTreeSet::new();
+        files.retain(|f| seen.insert(f.clone()));
         Ok(CreatedLogical { path, files })
     });
     match r {
